@@ -434,6 +434,68 @@ fn c11_scenario(split_pipeline: bool) -> impl Fn() + Sync + Send + 'static {
 	}
 }
 
+/// C05 with the crate's real worker loops instead of a scripted pipeline thread: writer (one two-key transaction
+/// moving both keys to other size classes), reader (k1, k2, k1), log / flush / commit / cleanup workers.
+fn c05_real_workers(mask: u8) -> impl Fn() + Sync + Send + 'static {
+	move || {
+		ITER.fetch_add(1, Ordering::SeqCst);
+		let dir = fresh_dir();
+		parity_db::verif::set_external_workers(true);
+		// pre-state written without threads
+		{
+			let opts = options(&dir, vec![ColumnOptions::default()], false);
+			let db = Db::open_or_create(&opts).expect("open");
+			db.commit(vec![(0u8, key(1), Some(val(10, 1))), (0u8, key(2), Some(val(20, 2)))]).unwrap();
+			db.process_commits().unwrap();
+			db.flush_logs().unwrap();
+			db.enact_logs().unwrap();
+			db.clean_logs().unwrap();
+		}
+		let opts = options(&dir, vec![ColumnOptions::default()], true);
+		let db = Arc::new(Db::open(&opts).expect("open"));
+		let versions: Arc<Vec<(Option<Vec<u8>>, Option<Vec<u8>>)>> = Arc::new(vec![(Some(val(10, 1)), Some(val(20, 2))), (Some(val(60, 3)), Some(val(300, 4)))]);
+		let mut workers = vec![];
+		for (wi, w) in [Worker::Log, Worker::Flush, Worker::Commit, Worker::Cleanup].into_iter().enumerate() {
+			if mask & (1 << wi) == 0 {
+				continue
+			}
+			let db = db.clone();
+			workers.push(loom::thread::spawn(move || db.verif_run_worker(w)));
+		}
+		let committed = Arc::new(loom::sync::atomic::AtomicUsize::new(0));
+		let w = {
+			let (db, versions, committed) = (db.clone(), versions.clone(), committed.clone());
+			loom::thread::spawn(move || {
+				db.commit(vec![(0u8, key(1), versions[1].0.clone()), (0u8, key(2), versions[1].1.clone())]).unwrap();
+				committed.store(1, loom::sync::atomic::Ordering::SeqCst);
+			})
+		};
+		let r = {
+			let (db, versions, committed) = (db.clone(), versions.clone(), committed.clone());
+			loom::thread::spawn(move || {
+				let ver = |k: usize, got: &Option<Vec<u8>>| (0..2).find(|v| if k == 1 { &versions[*v].0 == got } else { &versions[*v].1 == got });
+				let c0 = committed.load(loom::sync::atomic::Ordering::SeqCst);
+				let v1 = ver(1, &db.get(0, &key(1)).unwrap()).expect("get(k1) returned a value no transaction wrote");
+				loom::thread::yield_now();
+				let v2 = ver(2, &db.get(0, &key(2)).unwrap()).expect("get(k2) returned a value no transaction wrote");
+				loom::thread::yield_now();
+				let v3 = ver(1, &db.get(0, &key(1)).unwrap()).expect("second get(k1) returned a value no transaction wrote");
+				assert!(v1 >= c0, "get(k1) older than a commit that completed before the read");
+				assert!(v2 >= v1, "k1 read at version {}, then k2 at the older version {}", v1, v2);
+				assert!(v3 >= v2, "k2 read at version {}, then k1 at the older version {}", v2, v3);
+			})
+		};
+		w.join().unwrap();
+		r.join().unwrap();
+		db.verif_shutdown();
+		for w in workers {
+			w.join().unwrap();
+		}
+		let db = Arc::try_unwrap(db).ok().expect("sole owner");
+		drop(db);
+	}
+}
+
 // ---------------------------------------------------------------------------------------------------
 // driver
 
@@ -538,6 +600,9 @@ fn run_child(prop: &str, tier: &str, idx: usize) -> Outcome {
 		("C05", 1) => explore("hash/split-pipeline", 1, wall, c05_scenario(false, true, false)),
 		("C05", 2) => explore("btree/one-pipeline-thread", 2, wall, c05_scenario(true, false, false)),
 		("C05", 3) => explore("hash/multipart-value", 1, wall, c05_scenario(false, false, true)),
+		("C05", 10) => explore("real-workers/log+flush+commit", 1, wall, c05_real_workers(0b0111)),
+		("C05", 11) if !quick => explore("real-workers/all-four", 1, wall, c05_real_workers(0b1111)),
+		("C05", 12) if !quick => explore("real-workers/log+flush+commit", 2, wall, c05_real_workers(0b0111)),
 		("C05", 8) => explore("two-columns/one-pipeline-thread", 2, wall, c05_scenario_c(false, false, false, true)),
 		("C05", 9) => explore("two-columns-btree+split-pipeline", 1, wall, c05_scenario_c(true, true, false, true)),
 		("C05", 4) if !quick => explore("hash/one-pipeline-thread", 3, wall, c05_scenario(false, false, false)),
